@@ -399,3 +399,53 @@ func emptinessOfValue(cond ssa.Value) bool {
 	}
 	return false
 }
+
+// runC16Delegate: each walker type's getValidFn is a plain delegation to the shared resolver:
+// one call of (*validCommon).getValidFn with the name it was given, whose results are returned
+// on every path. A wrapper that answers some names itself (a "fast path" returning nil for the
+// built-in names) hides per-call and globally registered functions of that name.
+func runC16Delegate(c *Ctx) {
+	p := c.P
+	c.Rule("C16-DELEGATE", "every walker's getValidFn returns exactly what (*validCommon).getValidFn returns for the same name, on every path", 4)
+	shared := p.Method("valid", "validCommon", "getValidFn")
+	if shared == nil {
+		c.Unk("C16-DELEGATE", "(*valid.validCommon).getValidFn", "anchor", token.NoPos, "shared resolver not found")
+		return
+	}
+	for _, fn := range p.Funcs {
+		if fn.Name() != "getValidFn" || fn == shared || fn.Pkg != shared.Pkg || fn.Signature.Recv() == nil {
+			continue
+		}
+		c.Funcs[fnName(fn)] = true
+		c.Sites++
+		var bad []string
+		for _, b := range fn.Blocks {
+			ret, ok := b.Instrs[len(b.Instrs)-1].(*ssa.Return)
+			if !ok || b == fn.Recover {
+				continue
+			}
+			okRet := len(ret.Results) == 2
+			var call *ssa.Call
+			for _, r := range ret.Results {
+				ex, isEx := r.(*ssa.Extract)
+				if !isEx {
+					okRet = false
+					break
+				}
+				cl, isCall := ex.Tuple.(*ssa.Call)
+				if !isCall || staticCallee(&cl.Call) != shared {
+					okRet = false
+					break
+				}
+				call = cl
+			}
+			if okRet && call != nil && (len(call.Call.Args) < 2 || call.Call.Args[1] != fn.Params[1]) {
+				bad = append(bad, "the shared resolver is asked for a different name than the one given")
+			}
+			if !okRet {
+				bad = append(bad, "a path at "+p.Pos(ret.Pos())+" answers without consulting the shared resolver: per-call and registered functions of that name are ignored")
+			}
+		}
+		c.Check(len(bad) == 0, "C16-DELEGATE", fnName(fn), "delegates", fn.Pos(), "returns vc.getValidFn(name)", uniqJoin(bad, 2))
+	}
+}
